@@ -37,3 +37,29 @@ Theorem C08_letter_case_table :
      (S "SNAKE", S "to_snake_case"); (S "AUTO", S "None")].
 Proof. split; reflexivity. Qed.
 Print Assumptions C08_letter_case_table.
+
+(* ---- object paths (KeyPath / path_field / AliasPath strings) ---------------- *)
+From DW Require Import T_ObjPath ObjPath ObjPathProofs.
+
+(* A path rendered from ANY list of components (quoted text without backslash,
+   numeric tokens, booleans, dotted words), of any length, tokenizes into exactly
+   those components. *)
+Theorem C08_path_roundtrip :
+  forall p, Forall comp_ok p -> split_object_path (render_path p) = map tok_of p.
+Proof. exact path_roundtrip. Qed.
+Print Assumptions C08_path_roundtrip.
+
+(* int() is a builtin (oracle): with any parser inverting the printer, a numeric
+   component rendered from an integer is recovered as that integer. *)
+Theorem C08_path_int_component :
+  forall (int_parse : pstr -> option Z) (int_repr : Z -> pstr),
+  (forall n, int_parse (int_repr n) = Some n) ->
+  forall n, interp_num int_parse (int_repr n) = CInt n.
+Proof. exact interp_int. Qed.
+Print Assumptions C08_path_int_component.
+
+(* Tie T: the tokenizer's constant sets are the documented ones. *)
+Theorem C08_path_tables :
+  path_truthy = [S "True"; S "true"] /\ path_falsy = [S "False"; S "false"] /\ path_start_sep = [S "."; S "["].
+Proof. repeat split; reflexivity. Qed.
+Print Assumptions C08_path_tables.
